@@ -189,9 +189,10 @@ type Outcome struct {
 	Viol      []sim.Violation
 	Infra     string
 	Hung      string
-	RPCs      int // traced RPCs of the victim's Commit (sync + background)
-	SyncRPCs  int // of which before Commit returned
-	LeftLocks int // locks in the store when the victim was done / dead, before expiry and recovery
+	Void      string // the store implementation panicked (unistore substrate defect): the case says nothing
+	RPCs      int    // traced RPCs of the victim's Commit (sync + background)
+	SyncRPCs  int    // of which before Commit returned
+	LeftLocks int    // locks in the store when the victim was done / dead, before expiry and recovery
 	Told      string
 	Victim    *sim.TxnRec
 	Fate      string
@@ -225,6 +226,7 @@ func Run(p *Program, o Opts) (res Outcome) {
 	}
 	defer cl.Close()
 	cl.SlowPresentSecondaries = p.SlowSecondaries
+	defer func() { res.Void = cl.StorePanic() }()
 	for _, k := range p.Splits {
 		cl.SplitAt(k)
 	}
